@@ -107,6 +107,10 @@ func genHist(r *sim.Rand, tier string, prop string) *sim.Plan {
 			if r.Chance(0.1) {
 				s.NTx = 0
 			}
+			if r.Chance(0.04) {
+				// a full block of a loaded node (the ordering service's default batch size is 200 transactions)
+				s.NTx = []int{129, 150, 200, 257, 300}[r.Intn(5)]
+			}
 			p.Steps = append(p.Steps, sim.MustJSON(s))
 		case 1:
 			// target selectors: 0..5 = head-n ; 6 = 0 ; 7 = far back (head-11..head-14) ; 8 = head+1 ; 9 = head
@@ -556,6 +560,11 @@ func simplifyHStep(raw json.RawMessage) []json.RawMessage {
 		if s.NTx > 0 {
 			c := s
 			c.NTx = 0
+			out = append(out, sim.MustJSON(c))
+		}
+		if s.NTx > 4 {
+			c := s
+			c.NTx = 3
 			out = append(out, sim.MustJSON(c))
 		}
 		if s.IC > 0 {
